@@ -91,6 +91,16 @@ def lane_init(ctx):
     ctx["sig_params"] = S.signature_params()
 
 
+def pre_job(job, ctx):
+    if job.get("kind") == "xproc":
+        import shutil
+
+        nb = job["run_dir"] + "-numba"
+        shutil.copytree(ctx["numba_states"]["serial_first"], nb)
+        return dict(job, numba_dir=nb, verif=os.path.dirname(os.path.dirname(os.path.abspath(__file__))), repo_src=os.path.join(ctx["repo"], "src"))
+    return job
+
+
 # ----------------------------------------------------------------------------
 # generation
 
@@ -779,6 +789,8 @@ def execute(job):
         return execute_enum_journal(job)
     if kind == "enum_kill":
         return execute_enum_kill(job)
+    if kind == "xproc":
+        return execute_xproc(job)
     raise HarnessError("unknown job kind " + kind)
 
 
@@ -824,6 +836,16 @@ def execute_run(job):
 
 # ----------------------------------------------------------------------------
 # enumerated sub-space: every truncation length, every journal boundary
+
+
+def _clear_files(keep=()):
+    """Remove regular files in the cache directory (not sub-directories: what
+    the code under test put there stays, as it would in a user's directory)."""
+    for f in os.listdir(CACHE_DIR):
+        p = os.path.join(CACHE_DIR, f)
+        if f in keep or os.path.isdir(p):
+            continue
+        os.unlink(p)
 
 
 def _store_entry(spec, run_dir):
@@ -886,8 +908,7 @@ def execute_enum_trunc(job):
         lo = job.get("lo", 0)
         hi = min(job.get("hi", len(data)), len(data))
         for L in range(lo, hi):
-            for f in os.listdir(CACHE_DIR):
-                os.unlink(os.path.join(CACHE_DIR, f))
+            _clear_files()
             with open(path, "wb") as fh:
                 fh.write(data[:L])
             out["case"] = {"kind": "enum_trunc", "spec": spec, "lo": L, "hi": L + 1}
@@ -981,8 +1002,7 @@ def execute_enum_journal(job):
                     if not others:
                         continue
                     img2 = {entry_rel: img2[others[0]]}
-                for f in os.listdir(CACHE_DIR):
-                    os.unlink(os.path.join(CACHE_DIR, f))
+                _clear_files()
                 for rel, data in img2.items():
                     if rel.startswith(CACHE_DIR + "/"):
                         with open(rel, "wb") as fh:
@@ -997,6 +1017,94 @@ def execute_enum_journal(job):
     except HarnessError as e:
         out["status"] = "harness_error"
         out["error"] = str(e)
+    return out
+
+
+_XPROC = r"""
+import json, logging, os, sys
+sys.path.insert(0, sys.argv[1]); sys.path.insert(0, sys.argv[2])
+logging.disable(logging.CRITICAL)
+import numpy as np
+from engines import specs as S
+from sim.core import arr_digest
+import bldfm.solver as bs
+from bldfm.cache import GreensFunctionCache
+spec = json.loads(sys.argv[3])
+n = [0]
+orig = bs.ivp_solver
+def counting(*a, **k):
+    n[0] += 1
+    return orig(*a, **k)
+bs.ivp_solver = counting
+o_fft2, o_ifft2 = bs.fft2, bs.ifft2
+def fft2(*a, **k):
+    n[0] += 1
+    return o_fft2(*a, **k)
+def ifft2(*a, **k):
+    n[0] += 1
+    return o_ifft2(*a, **k)
+bs.fft2, bs.ifft2 = fft2, ifft2
+out = []
+for _ in range(2):
+    b = n[0]
+    try:
+        grid, conc, flx = bs.steady_state_transport_solver(**S.build_args(spec), cache=GreensFunctionCache(".bldfm_cache"))
+        out.append({"solved": n[0] - b, "digest": [arr_digest(g) for g in grid] + [arr_digest(conc), arr_digest(flx)]})
+    except Exception as e:
+        out.append({"exc": type(e).__name__ + ": " + str(e)[:160]})
+print("XPROC " + json.dumps(out), flush=True)
+os._exit(0)
+"""
+
+
+def execute_xproc(job):
+    """'In this or an earlier process': the directory one interpreter filled is
+    used by a genuinely separate interpreter (own imports, own string-hash
+    salt, own numba state).  The second interpreter must be served from the
+    cache, with the right values."""
+    import json
+    import subprocess
+    import sys
+
+    from bldfm.cache import GreensFunctionCache
+    from bldfm.solver import steady_state_transport_solver as solve
+
+    spec = job["spec"]
+    out = {"status": "ok", "cases": 0, "kind": "xproc"}
+    try:
+        os.chdir(job["run_dir"])
+        args = S.build_args(spec)
+        exp = solve(**args, cache=None)
+        solve(**args, cache=GreensFunctionCache(CACHE_DIR))
+        want = [arr_digest(g) for g in exp[0]] + [arr_digest(exp[1]), arr_digest(exp[2])]
+        for hs in job["hashseeds"]:
+            env = dict(os.environ, PYTHONHASHSEED=str(hs), PYTHONDONTWRITEBYTECODE="1", NUMBA_CACHE_DIR=job["numba_dir"])
+            p = subprocess.run([sys.executable, "-c", _XPROC, job["verif"], job["repo_src"], json.dumps(spec)], env=env, capture_output=True, text=True, timeout=600, cwd=job["run_dir"])
+            line = [l for l in p.stdout.splitlines() if l.startswith("XPROC ")]
+            if not line:
+                raise HarnessError("separate interpreter gave no result: " + (p.stdout + p.stderr)[-1500:])
+            res = json.loads(line[0][6:])
+            out["case"] = {"kind": "xproc", "spec": spec, "hashseeds": [hs]}
+            for k2, r in enumerate(res):
+                if "exc" in r:
+                    raise Violation("never-fatal", "exception", f"separate interpreter (PYTHONHASHSEED={hs}) request {k2} raised {r['exc']}", {"exc": r["exc"].split(":")[0]})
+                if r["digest"] != want:
+                    raise Violation("transparent", "wrong-result", f"separate interpreter (PYTHONHASHSEED={hs}) request {k2} returned other values than the cache-less solve", {"cause": ["process"]})
+                if r["solved"]:
+                    raise Violation("effective", "re-solved", f"separate interpreter (PYTHONHASHSEED={hs}) request {k2}: an identical request stored by an earlier process was solved again",
+                                    {"halo": "xproc"})
+            out["cases"] += 1
+        out.pop("case", None)
+    except Violation as v:
+        out["status"] = "violation"
+        out["violation"] = v.as_dict()
+    except HarnessError as e:
+        out["status"] = "harness_error"
+        out["error"] = str(e)
+    finally:
+        import shutil
+
+        shutil.rmtree(job.get("numba_dir", "/nonexistent"), ignore_errors=True)
     return out
 
 
@@ -1018,8 +1126,7 @@ def execute_enum_kill(job):
         exp = solve(**args, cache=None)
         for k in range(job["lo"], job["hi"]):
             if os.path.isdir(CACHE_DIR):
-                for f in os.listdir(CACHE_DIR):
-                    os.unlink(os.path.join(CACHE_DIR, f))
+                _clear_files()
             pid = os.fork()
             if pid == 0:
                 try:
@@ -1137,6 +1244,8 @@ def plan(tier, master_seed, runs=None):
             enum_jobs.append({"kind": "enum_journal", "spec": spec, "lo": lo, "hi": lo + 10})
         for lo in range(0, 100, 10):
             enum_jobs.append({"kind": "enum_kill", "spec": spec, "lo": lo, "hi": lo + 10})
+        if e < 2:
+            enum_jobs.append({"kind": "xproc", "spec": spec, "hashseeds": [1 + e, 4242 + e], "timeout": 900})
     # enumeration first: it is the exhaustive part
     return {"jobs": enum_jobs + jobs, "determinism_slice": 12, "shrink_budget_s": 90}
 
@@ -1147,6 +1256,7 @@ def evidence(plan_, executed, tier, master_seed):
     enum_j = [(j, r) for j, r in executed if j.get("kind") == "enum_journal"]
     enum_k = [(j, r) for j, r in executed if j.get("kind") == "enum_kill"]
     kill_cases = sum(r.get("killed", 0) for _, r in enum_k)
+    xproc_cases = sum(r.get("cases", 0) for j, r in executed if j.get("kind") == "xproc")
     probes, fired, states, pairs, hooks = {}, {}, set(), set(), {}
     ops = 0
     digests = set()
@@ -1206,6 +1316,7 @@ def evidence(plan_, executed, tier, master_seed):
             "truncation_cases": trunc_cases,
             "journal_boundary_cases": journal_cases,
             "real_sigkill_at_every_file_operation_cases": kill_cases,
+            "separate_interpreter_reuse_cases (other PYTHONHASHSEED)": xproc_cases,
         },
         "simulated_time": "no timers on this path: simulated time is counted in operations (see 'operations'); the plan-cache thread is parked on the virtual clock and never ticks",
         "components": {
